@@ -426,9 +426,9 @@ def verus_fn_props(ur, vname):
     for e in U.all_fn_entries():
         if e.name == tail1:
             return set(e.props) or set(U.props), e
-    m = re.match(r'c(\d\d)_', tail1)
+    m = re.match(r'((?:c\d\d_)+)', tail1)
     if m:
-        return {'C' + m.group(1)}, None
+        return {'C' + x for x in re.findall(r'c(\d\d)_', m.group(1))}, None
     return set(U.props), None
 
 
